@@ -61,7 +61,11 @@ Pool == << E(H_name, "str", FALSE),                  \*  1
            E(H_nasa_a_high_0, "num", FALSE), E(H_nasa_a_high_1, "num", FALSE), E(H_nasa_a_high_2, "num", FALSE),
            E(H_nasa_a_high_4, "num", FALSE), E(H_nasa_a_high_5, "num", FALSE), E(H_nasa_a_high_6, "num", FALSE), \* 45-50
            E(H_list_flags, "bd", TRUE),              \* 51: booleans / date-times / text in a list
-           E(H_dict_misc_flag, "bd", FALSE) >>       \* 52
+           E(H_dict_misc_flag, "bd", FALSE),         \* 52
+           \* differently padded repeats of the accumulating headers (pandas does not rename them)
+           E(H_vib_pad, "wav", FALSE), E(H_vib_pad2, "wav", FALSE),            \* 53, 54
+           E(H_rot_pad, "num", FALSE),                                          \* 55
+           E(H_list_sites_pad, "mix", FALSE), E(H_list_sites_pad2, "mix", FALSE) >>   \* 56, 57
 
 Pick(s, k) == s[(k % Len(s)) + 1]
 NumVal(r, c) == LET n == 100 * r + c IN
@@ -156,6 +160,10 @@ AuditGroups(x) ==
    \cup {G(<<15, 40, 41, 42, 43, 44, 16>>, 2, "masks"), G(<<50, 49, 48, 17, 47, 46, 45>>, 2, "masks"),
          G(<<45, 15, 46, 40, 47, 41, 17, 42, 48, 43, 49, 44, 50, 16>>, 1, "masks")}
    \cup {G(l, 0, "norows") : l \in {<<1>>, <<1, 8, 18>>, <<32, 31>>}}
+   \* padded repeats, alone and mixed with identical repeats that pandas suffixes
+   \cup UNION {GroupsOf(Layouts(m, 2, 2), {2}) \cup GroupsOf(Layouts(m, 3, 3), {1}) :
+                m \in {{8, 53, 54}, {9, 55}, {10, 56, 57}}}
+   \cup {G(<<8, 53, 8, 54, 8>>, 2, "masks"), G(<<56, 10, 10, 57, 1>>, 2, "masks")}
 
 \* TLC evaluates every parameterless constant definition at start-up, so the group sets take a
 \* dummy argument and the configuration chooses one with the constant SetName.
